@@ -1,4 +1,5 @@
 import StrandModel.Lemmas.RngLemmas
+import StrandModel.Model.GenShuffle
 import StrandModel.Props.C02
 import StrandModel.Props.C03
 import StrandModel.Props.C15
@@ -617,5 +618,27 @@ example : (splitProofTape 2 [1, 2, 3, 4, 5, 6, 7, 8, 9, 10, 11]).map (fun r =>
     (r.1.rHats, r.1.omegas, r.1.omegaHats, r.1.omegaPrimes, r.2)) =
     some ([1, 2], [3, 4, 5, 6], [7, 8], [9, 10], [11]) := by decide
 end nonvacuity
+
+
+/-! ### `gen_shuffle`: a valid permutation from ANY RNG bytes, and the permuted multiset (C02's first clause) -/
+
+/-- for every RNG byte string on which the permutation sampler terminates and every exponent tape
+    that is long enough, `gen_shuffle` succeeds, the returned positions are a permutation of
+    `0..N`, one exponent per input is returned, and the outputs decrypt to exactly the permuted
+    multiset of the input plaintexts -/
+theorem gen_shuffle_spec {E X : Type} {o : Ops E X} {q : ℕ} {A : Type} [AddCommGroup A]
+    [Module (ZMod q) A] (L : Lawful o q A) (sk : X) (cts : List (Ciphertext E)) (rng : Bytes)
+    (tape : List X) (perm : List Nat) (rng' : Bytes)
+    (hfy : fisherYates cts.length rng = some (perm, rng'))
+    (ht : cts.length ≤ tape.length) (hv : ∀ c ∈ cts, C02.CtValid L c) :
+    ∃ outs, genShuffle o (pkOf o sk) cts rng tape
+        = .ok ((outs, tape.take cts.length, perm), rng', tape.drop cts.length) ∧
+      perm.Perm (List.range cts.length) ∧ outs.length = cts.length ∧
+      (outs.map (decrypt o sk)).Perm (cts.map (decrypt o sk)) := by
+  have hperm := fisherYates_perm hfy
+  obtain ⟨outs, hap, hlen, _, hms⟩ :=
+    C02.shuffle_multiset L sk perm cts tape cts.length hperm rfl ht hv
+  refine ⟨outs, ?_, hperm, hlen, hms⟩
+  simp [genShuffle, hfy, hap]
 
 end Strand.C18
